@@ -31,8 +31,8 @@ class Local(FileSystem):
         t = Tokenizer(expr)
         prefix = t.get_next(['*', '?'])
 
-        if not prefix:
-            # a relative expression that starts with a wildcard:
+        if not any(sep in prefix for sep in os_sep):
+            # a relative expression with a wildcard in its first component:
             # search below the current directory
             expr = '.' + os.path.sep + expr
             prefix = '.' + os.path.sep
